@@ -544,6 +544,7 @@ namespace xsimd
                         xr = x - constants::pio2_1<B>();
                         xr -= constants::pio2_2<B>();
                         xr -= constants::pio2_3<B>();
+                        xr -= constants::pio2_3t<B>();
                         xr = select(test, xr, x);
                         return select(test, B(1.), B(0.));
                     }
@@ -553,6 +554,7 @@ namespace xsimd
                         xr = fnma(xi, constants::pio2_1<B>(), x);
                         xr -= xi * constants::pio2_2<B>();
                         xr -= xi * constants::pio2_3<B>();
+                        xr -= xi * constants::pio2_3t<B>();
                         return quadrant(xi);
                     }
                     else if (all(x <= constants::mediumpi<B>()))
